@@ -162,33 +162,93 @@ func ruleClientReset(c *RC) *RuleResult {
 				r.fail(fn.Name+"/reset-unreachable", c.Prog.Pos(call), "DBFT.Reset is not reachable from the event loop")
 				continue
 			}
-			// enclosing statements: inside a for loop (when in the loop function) and under a block-processed condition
-			inFor, condOK := fn != loopFn, false
-			for _, enc := range enclosingConds(fn, call) {
-				switch x := enc.(type) {
-				case *ast.ForStmt, *ast.RangeStmt:
-					inFor = true
-				case *ast.IfStmt:
-					ast.Inspect(x.Cond, func(m ast.Node) bool {
-						switch y := m.(type) {
-						case *ast.CallExpr:
-							if f, ok := typeutil.Callee(fn.Pkg.TypesInfo, y).(*types.Func); ok && f.Name() == "BlockSent" {
-								condOK = true
+			// enclosing statements: inside a for loop (when in the loop function) and under a block-processed condition.
+			// A single-caller helper is followed up to its call in the loop function.
+			inFor, condOK := false, false
+			top, topNode := fn, ast.Node(call)
+			for hop := 0; ; hop++ {
+				for _, enc := range enclosingConds(top, topNode) {
+					switch x := enc.(type) {
+					case *ast.ForStmt, *ast.RangeStmt:
+						inFor = true
+					case *ast.IfStmt:
+						ast.Inspect(x.Cond, func(m ast.Node) bool {
+							switch y := m.(type) {
+							case *ast.CallExpr:
+								if f, ok := typeutil.Callee(top.Pkg.TypesInfo, y).(*types.Func); ok && f.Name() == "BlockSent" {
+									condOK = true
+								}
+							case *ast.SelectorExpr:
+								if pbFields[y.Sel.Name] {
+									condOK = true
+								}
 							}
-						case *ast.SelectorExpr:
-							if pbFields[y.Sel.Name] {
-								condOK = true
+							return true
+						})
+					}
+				}
+				if top == loopFn || hop > 3 || !c.A.inlinable(top) {
+					break
+				}
+				var up *FuncInfo
+				var upNode ast.Node
+				for _, g := range c.simFuncs() {
+					for _, s := range c.A.FnSites[g] {
+						if s.Kind == "call" && s.Target == top {
+							up, upNode = g, s.Node
+						}
+					}
+				}
+				if up == nil {
+					break
+				}
+				top, topNode = up, upNode
+			}
+			if top != loopFn {
+				inFor = true // a multi-caller helper reachable from the loop: judged by its own condition
+			}
+			// the walker's verdict: at the call, on every path, the library's block-processed flag (what BlockSent
+			// returns) is known to be set -- covers early-return guards and helpers
+			if !condOK {
+				if bs := c.Prog.fn("Context.BlockSent"); bs != nil {
+					// the location BlockSent() reports: the positive literal of its 'true' exit
+					var t *Term
+					for _, e := range c.exitsOf(bs) {
+						if len(e.Ret) == 1 && e.Ret[0].S == "true" {
+							for _, l := range e.TrailL {
+								if l.Pos && l.A.Op == "b" && l.A.A.K == KField {
+									t = l.A.A
+								}
 							}
 						}
-						return true
-					})
+					}
+					if t != nil {
+						suffix := "." + strings.TrimPrefix(t.S, "ctx.")
+						rec := c.inlineSites(loopFn, false)
+						for _, s := range rec.FnSites[fn] {
+							if s.Node != ast.Node(call) || len(s.Snaps) == 0 {
+								continue
+							}
+							all := true
+							for _, sn := range s.Snaps {
+								found := false
+								for _, l := range sn.TrailL {
+									if l.Pos && l.A.Op == "b" && strings.HasSuffix(l.A.A.S, suffix) {
+										found = true
+									}
+								}
+								all = all && found
+							}
+							condOK = all
+						}
+					}
 				}
 			}
 			// the re-initialisation must follow every kind of handled event: if it sits inside one select/switch arm,
 			// every arm that feeds the library must have it
 			partial := ""
-			for _, enc := range enclosingClauses(fn, call) {
-				ast.Inspect(fn.Decl.Body, func(n ast.Node) bool {
+			for _, enc := range enclosingClauses(top, topNode) {
+				ast.Inspect(top.Decl.Body, func(n ast.Node) bool {
 					var body []ast.Stmt
 					switch x := n.(type) {
 					case *ast.CommClause:
@@ -205,7 +265,7 @@ func ruleClientReset(c *RC) *RuleResult {
 					for _, st := range body {
 						ast.Inspect(st, func(m ast.Node) bool {
 							if ce, ok := m.(*ast.CallExpr); ok {
-								if f, ok := typeutil.Callee(fn.Pkg.TypesInfo, ce).(*types.Func); ok {
+								if f, ok := typeutil.Callee(top.Pkg.TypesInfo, ce).(*types.Func); ok {
 									switch f.Name() {
 									case "OnReceive", "OnTimeout", "OnTransaction", "OnNewTransaction":
 										feeds = true
